@@ -143,9 +143,10 @@ CLAIMED = {
              "entries strictly below an existing directory (one level for the shallow ones) of the asked kind, each once, never the argument. Also: "
              "no panic, nothing a filter rejects is yielded, independence of the descriptor cap. The mirror is compared with the real iterator on "
              "random trees (links, cycles, dangling) x the cross-product of options; the driver compares machine and recursion on every explored "
-             "call; every observed sequence is also judged by tools/walkspec.py. Partial: with links followed, termination (hence the denotation: "
-             "target contents once per followed link, LinkLooping on a cycle) is exercised and judged, not proved; 'identically on both backends' "
-             "runs under C02.",
+             "call; every observed sequence is also judged by tools/walkspec.py. Memfs/WalkFollow.v proves the denotation is always defined, "
+             "links followed or not (a followed link to an open directory is LinkLooping, every other followed link adds a new open path, a "
+             "plain child is one level deeper: no endless descent). Partial: with links followed, that the mirror's fuel (a model artefact) "
+             "covers the recursion's steps is exercised and judged, not proved; 'identically on both backends' runs under C02.",
         note="Trusted: Coq kernel; sibling order of unsorted traversals and of name ties is HashSet order and compared as a multiset; "
              "tools/walkspec.py as a second, independent judge; extraction, driver, harness, differ.",
         technique="Coq proof (machine = recursive denotation; exactness, order and termination without follow) + correspondence + independent judge",
